@@ -16,9 +16,11 @@ fn stats(m: &FreeSpaceManager) -> (u64, u64, u64) {
     )
 }
 
-fn fresh(hi: u64) -> FreeSpaceManager {
+/// `slack`: bytes beyond the last whole block (a device whose size is not a multiple of the block
+/// size has `hi` usable blocks: the trailing partial block belongs to nobody).
+fn fresh_with(hi: u64, slack: u64) -> FreeSpaceManager {
     let mut m = FreeSpaceManager::new();
-    m.initialize(hi * BLOCK).expect("initialize");
+    m.initialize(hi * BLOCK + slack).expect("initialize");
     m
 }
 
@@ -33,9 +35,10 @@ fn emit(out: &mut impl Write, m: &FreeSpaceManager, mut ev: Value) {
 pub fn main(args: &[String]) -> i32 {
     let o = Opts::parse(args);
     let hi: u64 = o.num("hi", 22);
+    let slack: u64 = o.num("slack", 0u64) % BLOCK;
     let out_path = o.req("out");
     let mut out = std::io::BufWriter::new(std::fs::File::create(out_path).expect("create out"));
-    let mut m = fresh(hi);
+    let mut m = fresh_with(hi, slack);
     emit(&mut out, &m, json!({"e": "reset"}));
     let mut calls = 0u64;
     if let Some(prog) = o.get("prog") {
@@ -48,7 +51,7 @@ pub fn main(args: &[String]) -> i32 {
             let v: Value = serde_json::from_str(&line).expect("prog json");
             match v["op"].as_str().unwrap() {
                 "reset" => {
-                    m = fresh(hi);
+                    m = fresh_with(hi, slack);
                     emit(&mut out, &m, json!({"e": "reset"}));
                 }
                 "alloc" => {
